@@ -15,6 +15,8 @@
 #include <stdatomic.h>
 #include <stdint.h>
 
+#include "fiber_verif.h"
+
 _Static_assert(ATOMIC_BOOL_LOCK_FREE == 2, "");
 _Static_assert(ATOMIC_CHAR_LOCK_FREE == 2, "");
 _Static_assert(ATOMIC_CHAR16_T_LOCK_FREE == 2, "");
@@ -56,6 +58,7 @@ static inline void load_load_barrier() {
 }
 
 static inline void cpu_relax() {
+  FIBER_VERIF_POINT(FV_CPU_RELAX, 0, 0);
 #if defined(__i386__) || defined(__x86_64__)
   __asm__ __volatile__("pause" : : : "memory");
 #else
@@ -72,6 +75,7 @@ pointer_pair_t;
 static inline int compare_and_swap2(volatile pointer_pair_t* location,
                                     const pointer_pair_t* original_value,
                                     const pointer_pair_t* new_value) {
+  FIBER_VERIF_POINT(FV_CAS2_PRE, location, 0);
 #if defined(__i386__)
   return __sync_bool_compare_and_swap(
       (uint64_t*)location, *(uint64_t*)original_value, *(uint64_t*)new_value);
